@@ -68,6 +68,7 @@ class Sim:
 
 class C12(Prop):
     pid = "C12"
+    shape_tie = "alloc"
     pkg = "z"
     quick_n = 400
     thorough_n = 6000
@@ -479,10 +480,10 @@ class C12(Prop):
         if crash:
             return [crash]
         if ctx.tier == "quick":
-            plan = [(8, 400, 4096), (32, 150, 600), (3, 300, 70000)]
+            plan = [(8, 400, 4096), (32, 150, 600), (3, 300, 70000), (8, 4, 1 << 22)]
         else:
             plan = [(8, 2000, 4096), (64, 600, 600), (16, 2000, 3000), (4, 1500, 200000), (2, 4000, 64),
-                    (48, 400, 20000)]
+                    (48, 400, 20000), (8, 4, 1 << 22), (12, 3, 1 << 22)]
         for k, (g, m, mx) in enumerate(plan):
             init = rng.choice([1, 63, 512, 1000, 4096])
             ops = []
